@@ -458,6 +458,10 @@ def _finish(check, tier, seed, start, runs, good, harness_errors, truncated, wal
     for line in out_lines:
         print(line)
     sys.stdout.flush()
+    global _SERVER
+    if _SERVER is not None:
+        _SERVER.close()
+        _SERVER = None
     return rc, evidence, replay_path
 
 
@@ -505,26 +509,107 @@ def eval_isolated(check, known, preceding, plan, signature, timeout=300):
     return pickle.loads(data)
 
 
+class ReplayServer:
+    """A FRESH interpreter (same bootstrap as `./check <id> --replay`) that evaluates plans, each in its own fork.
+
+    The minimiser and the choice of the violation to report go through it, so "reproduces" always means "reproduces in a
+    fresh process started the way replay starts" - not merely in a fork of the batch parent, whose heap (object addresses,
+    hence id()-keyed state of the tree under test) has a different history."""
+
+    def __init__(self, prop):
+        import subprocess
+        env = dict(os.environ)
+        env['SIMKIT_NO_REEXEC'] = '1'         # PYTHONHASHSEED is already pinned in this process; inherit it
+        self.p = subprocess.Popen([sys.executable, os.path.join(VERIF_DIR, 'check'), prop, '--serve'], stdin=subprocess.PIPE,
+                                  stdout=subprocess.PIPE, env=env, cwd=VERIF_DIR, text=True)
+
+    def eval(self, preceding, plan, signature):
+        try:
+            self.p.stdin.write(json.dumps({'preceding': preceding, 'plan': plan, 'signature': signature}) + '\n')
+            self.p.stdin.flush()
+            line = self.p.stdout.readline()
+            if not line:
+                return {'hit': None, 'sigs': [], 'error': 'replay server died'}
+            return json.loads(line)
+        except Exception as e:
+            return {'hit': None, 'sigs': [], 'error': repr(e)[:200]}
+
+    def close(self):
+        try:
+            self.p.stdin.close()
+            self.p.wait(timeout=10)
+        except Exception:
+            self.p.kill()
+
+
+def serve(check):
+    """--serve: read {preceding, plan, signature} per line, answer with the eval_isolated result (JSON per line)."""
+    known = load_known(check.PROPERTY)
+    for line in sys.stdin:
+        line = line.strip()
+        if not line:
+            continue
+        req = json.loads(line)
+        r = eval_isolated(check, known, req['preceding'], req['plan'], req['signature'])
+        sys.stdout.write(json.dumps(r, default=str) + '\n')
+        sys.stdout.flush()
+    return 0
+
+
+_SERVER = None
+
+
+def _server_eval(check, preceding, plan, sig):
+    global _SERVER
+    if _SERVER is None:
+        _SERVER = ReplayServer(check.PROPERTY)
+    return _SERVER.eval(preceding, plan, sig)
+
+
+def _replay_command_reproduces(check, path, times=2):
+    """The acceptance test of a replay file: the real replay command, in brand-new interpreters, reproduces it every time."""
+    import subprocess
+    env = dict(os.environ)
+    env.pop('SIMKIT_NO_REEXEC', None)
+    for _ in range(times):
+        r = subprocess.run([sys.executable, os.path.join(VERIF_DIR, 'check'), check.PROPERTY, '--replay', path], env=env, cwd=VERIF_DIR,
+                           capture_output=True, text=True, timeout=900)
+        if r.returncode != 1:
+            return False
+    return True
+
+
 def _report_first_reproducible(check, seed, tier, unlisted, known):
-    """Walk the unlisted violations in (run, seq) order and report the first one that reproduces in isolation: alone, or -
-    when it depends on process-global state left behind by earlier runs of its chunk - after those runs' literal plans."""
+    """Walk the unlisted violations in (run, seq) order and report the first one whose replay file reproduces with the real
+    replay command in brand-new interpreters: alone, or - when it depends on process-global state left behind by earlier runs
+    of its chunk - after those runs' literal plans; minimised if the minimised file passes that test, else unminimised."""
     tried = 0
-    for run_i, seq, v, plan, chunk_first in unlisted[:8]:
+    for run_i, seq, v, plan, chunk_first in unlisted[:24]:
         tried += 1
         sig = v['signature']
-        if eval_isolated(check, known, [], plan, sig)['hit'] is not None:
-            return run_i, seq, v, plan, _minimise_and_write(check, seed, tier, run_i, v, plan, known, [])
-        preceding = [check.gen_plan(seed, j, tier) for j in range(chunk_first, run_i)]
-        if preceding and eval_isolated(check, known, preceding, plan, sig)['hit'] is not None:
-            log(f'note: violation of run {run_i} depends on state left by earlier runs of its chunk ({chunk_first}..{run_i - 1}); they are part of the replay')
-            return run_i, seq, v, plan, _minimise_and_write(check, seed, tier, run_i, v, plan, known, preceding)
-        log(f'warning: violation {sig} of run {run_i} did not reproduce in isolation; trying the next one')
+        preceding = None
+        if _server_eval(check, [], plan, sig)['hit'] is not None:
+            preceding = []
+        else:
+            pre = [check.gen_plan(seed, j, tier) for j in range(chunk_first, run_i)]
+            if pre and _server_eval(check, pre, plan, sig)['hit'] is not None:
+                log(f'note: violation of run {run_i} depends on state left by earlier runs of its chunk ({chunk_first}..{run_i - 1}); they are part of the replay')
+                preceding = pre
+        if preceding is not None:
+            path = _minimise_and_write(check, seed, tier, run_i, v, plan, known, preceding)
+            if _replay_command_reproduces(check, path):
+                return run_i, seq, v, plan, path
+            log(f'warning: the minimised replay of run {run_i} is not stable across fresh interpreters (object-address dependent?); trying it unminimised')
+            path = _minimise_and_write(check, seed, tier, run_i, v, plan, known, preceding, minimise=False)
+            if _replay_command_reproduces(check, path):
+                return run_i, seq, v, plan, path
+        log(f'warning: violation {sig} of run {run_i} did not reproduce in a fresh process; trying the next one')
     run_i, seq, v, plan, chunk_first = unlisted[0]
     log('warning: none of the first unlisted violations reproduced in isolation; reporting the first one unminimised')
     return run_i, seq, v, plan, _minimise_and_write(check, seed, tier, run_i, v, plan, known, [], reproducible=False)
 
 
-def _minimise_and_write(check, seed, tier, run_i, v, plan, known, preceding, reproducible=True):
+def _minimise_and_write(check, seed, tier, run_i, v, plan, known, preceding, reproducible=True, minimise=True):
     from .ddmin import Budget, ddmin_list
     sig = v['signature']
     minimised = plan
@@ -539,20 +624,20 @@ def _minimise_and_write(check, seed, tier, run_i, v, plan, known, preceding, rep
         if time.time() > deadline:
             return False
         steps += 1
-        return eval_isolated(check, known, pre, p, sig)['hit'] is not None
+        return _server_eval(check, pre, p, sig)['hit'] is not None
 
-    if reproducible:
+    if reproducible and minimise:
         try:
             if prec:
                 prec = ddmin_list(prec, lambda pre: fails_with(pre, plan), budget, min_len=1)
             cand = check.shrink(plan, lambda p: fails_with(prec, p), budget)
-            if fails_with(prec, cand) or eval_isolated(check, known, prec, cand, sig)['hit'] is not None:
+            if fails_with(prec, cand) or _server_eval(check, prec, cand, sig)['hit'] is not None:
                 minimised = cand
         except Exception as e:
             log(f'warning: minimiser failed ({e!r}); reporting the unminimised plan')
             minimised = plan
     final_v = v
-    r = eval_isolated(check, known, prec, minimised, sig)
+    r = _server_eval(check, prec, minimised, sig)
     if r['hit'] is not None:
         final_v = r['hit']
     os.makedirs(os.path.join(REPLAY_DIR, check.PROPERTY), exist_ok=True)
@@ -626,6 +711,7 @@ def main(load_check, argv=None):
     ap.add_argument('--wall-cap', type=float)
     ap.add_argument('--no-evidence', action='store_true')
     ap.add_argument('--digest-only', action='store_true', help='print the batch digest on stdout (self-tests)')
+    ap.add_argument('--serve', action='store_true', help='internal: evaluate plans read from stdin (used by the minimiser)')
     args = ap.parse_args(argv)
     hashseed = None
     if args.replay:
@@ -636,6 +722,8 @@ def main(load_check, argv=None):
         check = load_check()
         if args.replay:
             return replay(check, args.replay)
+        if args.serve:
+            return serve(check)
         rc, ev, _ = run_batch(check, args.tier, seeds.verif_seed(), runs=args.runs, start=args.start,
                               workers=args.workers, wall_cap_s=args.wall_cap if not args.digest_only else 1e9,   # a digest must never be truncated
                               write_evidence=not args.no_evidence and not args.digest_only,
